@@ -167,4 +167,118 @@ theorem connWindow_restored {full : Bool} {g : Ghost} {s : Streams} (h : Inv ful
   rw [h1, h2] at hthr ⊢
   omega
 
+theorem notifyTask_store (s : Streams) : s.notifyTask.store = s.store := by
+  unfold Streams.notifyTask; split <;> rfl
+theorem notifyTask_recv (s : Streams) : s.notifyTask.recv.flow = s.recv.flow ∧ s.notifyTask.recv.inFlightData = s.recv.inFlightData := by
+  unfold Streams.notifyTask; split <;> exact ⟨rfl, rfl⟩
+
+theorem qPush_get? (s : Streams) (q : QName) (id : Nat) {x : Stream} (hx : s.store.get? id = some x) :
+    ∃ x', (s.qPush q id).1.store.get? id = some x' ∧ x'.recvFlow = x.recvFlow ∧
+      x'.inFlightRecvData = x.inFlightRecvData := by
+  unfold Streams.qPush
+  split
+  · exact ⟨x, hx, rfl, rfl⟩
+  · refine ⟨x.setQueued q true, ?_, (setQueued_same x q true).flow, (setQueued_same x q true).infl⟩
+    show ((s.modStream id fun st => st.setQueued q true).setQ q _).store.get? id = _
+    rw [setQ_store, get?_modStream _ _ _ (fun y => (setQueued_same y q true).key), hx]; rfl
+
+/-- **an application release is credited exactly once**: `release_capacity(cap)` = `Ok` moves `cap`
+    octets from the connection's `in_flight_data` to its `available` and from the stream's
+    `in_flight_recv_data` to the stream's `available`; the windows the peer sees do not move -/
+theorem releaseCapacity_exact {full : Bool} {g : Ghost} {s : Streams} (h : Inv full g s) (id cap : Nat) (b : Bool)
+    (hok : (s.releaseCapacity id cap b).2 = .ok ()) :
+    cap ≤ (s.stream id).inFlightRecvData ∧
+    cW (s.releaseCapacity id cap b).1 = cW s ∧ cA (s.releaseCapacity id cap b).1 = cA s + cap ∧
+    cI (s.releaseCapacity id cap b).1 = cI s - cap ∧
+    ∀ x, s.store.get? id = some x → ∃ x', (s.releaseCapacity id cap b).1.store.get? id = some x' ∧
+      x'.inFlightRecvData = x.inFlightRecvData - cap ∧ x'.recvFlow = (x.recvFlow.assignCapacity cap).1 := by
+  unfold Streams.releaseCapacity at hok ⊢
+  split at hok
+  · cases hok
+  · next hgt =>
+    rw [if_neg hgt]
+    have hcap : cap ≤ (s.stream id).inFlightRecvData := by omega
+    have hcI : cap ≤ cI s := by
+      cases hg : s.store.get? id with
+      | none => rw [stream_of_get?_none hg] at hcap; simp at hcap; omega
+      | some x =>
+        rw [stream_eq_of_get? hg] at hcap
+        have := (h.infl_le (Int.le_refl 0) (get?_mem hg).1).1
+        omega
+    have hre := release_exact h cap b hcI
+    obtain ⟨-, hst1⟩ := releaseConnectionCapacity_inv h cap b hcI
+    refine ⟨hcap, ?_⟩
+    dsimp only
+    have ha2 := modStream_actions (s.releaseConnectionCapacity cap b) id (fun st =>
+      { st with inFlightRecvData := wrapSubU32 st.inFlightRecvData cap, recvFlow := (st.recvFlow.assignCapacity cap).1 })
+    have hg2 := get?_modStream (s.releaseConnectionCapacity cap b) id (fun st =>
+      { st with inFlightRecvData := wrapSubU32 st.inFlightRecvData cap, recvFlow := (st.recvFlow.assignCapacity cap).1 })
+      (fun _ => rfl)
+    rw [hst1] at hg2
+    generalize ((s.releaseConnectionCapacity cap b).modStream id fun st =>
+      { st with inFlightRecvData := wrapSubU32 st.inFlightRecvData cap, recvFlow := (st.recvFlow.assignCapacity cap).1 }) = s2
+      at ha2 hg2 ⊢
+    have hconn2 : cW s2 = cW s ∧ cA s2 = cA s + cap ∧ cI s2 = cI s - cap := by
+      unfold cW cA cI Streams.recv at *
+      rw [ha2]; exact hre
+    -- the stream entry after the update
+    have hstream2 : ∀ x, s.store.get? id = some x → ∃ x2, s2.store.get? id = some x2 ∧
+        x2.inFlightRecvData = x.inFlightRecvData - cap ∧ x2.recvFlow = (x.recvFlow.assignCapacity cap).1 := by
+      intro x hx
+      rw [hx] at hg2
+      refine ⟨_, hg2, ?_, rfl⟩
+      rw [stream_eq_of_get? hx] at hcap
+      have hb := (h.infl_le (Int.le_refl 0) (get?_mem hx).1)
+      exact wrapSubU32_of_le (by omega) hcap
+    split
+    · -- queued for a WINDOW_UPDATE
+      have hq := (qPush_ext s2 .pendingWindowUpdates id)
+      have hconn3 : cW (s2.qPush .pendingWindowUpdates id).1 = cW s ∧ cA (s2.qPush .pendingWindowUpdates id).1 = cA s + cap ∧
+          cI (s2.qPush .pendingWindowUpdates id).1 = cI s - cap := by
+        unfold cW cA cI at *; rw [hq.flow, hq.infl]; exact hconn2
+      have hstream3 : ∀ x, s.store.get? id = some x → ∃ x3, (s2.qPush .pendingWindowUpdates id).1.store.get? id = some x3 ∧
+          x3.inFlightRecvData = x.inFlightRecvData - cap ∧ x3.recvFlow = (x.recvFlow.assignCapacity cap).1 := by
+        intro x hx
+        obtain ⟨x2, hx2, h1, h2⟩ := hstream2 x hx
+        obtain ⟨x3, hx3, h3, h4⟩ := qPush_get? s2 .pendingWindowUpdates id hx2
+        exact ⟨x3, hx3, by rw [h4, h1], by rw [h3, h2]⟩
+      dsimp only
+      split
+      · refine ⟨?_, ?_, ?_, fun x hx => ?_⟩
+        · unfold cW at *; rw [(notifyTask_recv _).1]; exact hconn3.1
+        · unfold cA at *; rw [(notifyTask_recv _).1]; exact hconn3.2.1
+        · unfold cI at *; rw [(notifyTask_recv _).2]; exact hconn3.2.2
+        · rw [notifyTask_store]; exact hstream3 x hx
+      · exact ⟨hconn3.1, hconn3.2.1, hconn3.2.2, hstream3⟩
+    · exact ⟨hconn2.1, hconn2.2.1, hconn2.2.2, hstream2⟩
+
+/-- a stream with nothing in flight whose window is at most half the initial window size: the whole
+    difference is owed -/
+theorem streamWindow_restored {g : Ghost} {s : Streams} (h : Inv true g s) {x : Stream} (hx : x ∈ s.store.slab)
+    (hl : linked s x.key) (hc : x.state.isClosed = false) (hr : x.isRecv = true) (h0 : x.inFlightRecvData = 0)
+    (hhalf : 2 * x.recvFlow.windowSize.val ≤ (s.recv.initWindowSz : Int))
+    (hlt : x.recvFlow.windowSize.val < (s.recv.initWindowSz : Int)) :
+    x.recvFlow.available.val = (s.recv.initWindowSz : Int) ∧
+    x.recvFlow.unclaimedCapacity = some ((s.recv.initWindowSz : Int) - x.recvFlow.windowSize.val).toNat := by
+  have ok := h.streams rfl x hx
+  have hM := h.initMax
+  have hav : x.recvFlow.available.val = (s.recv.initWindowSz : Int) := by
+    rcases ok.bud hl with hcl | hb
+    · rw [hc] at hcl; cases hcl
+    · have := hb.2 hr; omega
+  have hlive : x.recvFlow.available.val - x.recvFlow.windowSize.val + (x.inFlightRecvData : Int) ≤ (g.hiInit : Int) := by
+    rcases ok.live with hcl | hlv
+    · rw [hc] at hcl; cases hcl
+    · exact hlv.1
+  refine ⟨hav, ?_⟩
+  have hd : inI32 (x.recvFlow.available.val - x.recvFlow.windowSize.val) = true := by
+    apply inI32_of_range <;> omega
+  rw [unclaimedCapacity_spec _ _ ok.wI32 ok.aI32 hd]
+  refine ⟨by omega, by rw [hav], ?_⟩
+  by_cases hw : 0 ≤ x.recvFlow.windowSize.val
+  · have := unclaimedThreshold_le_window (f := x.recvFlow) hw
+    omega
+  · have := unclaimedThreshold_nonpos (f := x.recvFlow) (by omega)
+    omega
+
 end H2V.Lemmas.ConnRecvP
